@@ -7,6 +7,7 @@ from gen import trxd_consts
 ID = "C01"
 LEVEL = "proof"
 LEAN_MODULES = ["OsmoVerif.Props.C01"]
+DRIVER_MODULES = ["Trxd"]
 LEAN_MODEL_MODULES = ["OsmoVerif.Model.Trxd", "OsmoVerif.Spec.TrxdRanges", "OsmoVerif.Spec.TrxdLayout", "OsmoVerif.Lemmas.Trxd"]
 ASSUMPTIONS = [
     "theorems are about OsmoVerif.Model.Trxd (hand model of TxMsg/RxMsg gen_msg and parse_msg on a fresh object; Python ints unbounded, bytes / array('b') as lists with their element ranges, struct.pack/unpack and bytearray.append failure rules as documented at the top of the model)",
